@@ -18,12 +18,13 @@ import Driver.EventLoop
 import Driver.ClientPool
 import Driver.Serve
 import Driver.Shutdown
+import Driver.PromiseN
 
 open Drv
 
 def dispatch (line : String) : String :=
   let ws := words line
-  let ops : List (List String → Option String) := [base64Op, mimeOp, netOp, headersOp, cookieOp, parserOp, routerOp, promiseOp, queueOp, promiseMTOp, emitOp, roundTripOp, limitsOp, lifeOp, writeQueueOp, stallOp, clientOp, serveOp, shutdownOp]
+  let ops : List (List String → Option String) := [base64Op, mimeOp, netOp, headersOp, cookieOp, parserOp, routerOp, promiseOp, queueOp, promiseMTOp, emitOp, roundTripOp, limitsOp, lifeOp, writeQueueOp, stallOp, clientOp, serveOp, shutdownOp, promiseNOp]
   match ops.findSome? (fun f => f ws) with
   | some r => r
   | none => "bad-op"
